@@ -252,6 +252,10 @@ func progOfLine(line string) int {
 // programs that make it panic or whose output does not build), builds everything
 // and runs every case on the real runtime and natively.
 func runSrcFamily(c *vf.Check, cases []srcCase, calls int, o srcOpts) *srcRun {
+	return runSrcFamilyN(c, cases, func(int) int { return calls }, o)
+}
+
+func runSrcFamilyN(c *vf.Check, cases []srcCase, callsOf func(i int) int, o srcOpts) *srcRun {
 	if o.Budget == 0 {
 		o.Budget = 30
 	}
@@ -271,10 +275,10 @@ func runSrcFamily(c *vf.Check, cases []srcCase, calls int, o srcOpts) *srcRun {
 	progs := newUniq()
 	run := &srcRun{}
 	var jobs []srcJob
-	for _, sc := range cases {
+	for ci, sc := range cases {
 		i := progs.add(sc.Prog)
 		run.ProgOf = append(run.ProgOf, i)
-		jobs = append(jobs, srcJob{Idx: i, Tape: boolTape(sc.Tape), Calls: calls, Budget: o.Budget})
+		jobs = append(jobs, srcJob{Idx: i, Tape: boolTape(sc.Tape), Calls: callsOf(ci), Budget: o.Budget})
 	}
 	run.Progs = progs.vals
 	np := len(run.Progs)
